@@ -41,6 +41,7 @@ type netParams struct {
 	Narrow   bool    `json:"narrow,omitempty"`    // fetch: only the first branch's refspec is given; other branches and tags exist on the remote
 	TagSrc   string  `json:"tag_src,omitempty"`   // push: how the tag's source is spelled: "" (refs/tags/x) | short (x:refs/tags/x) | bare (x) | head (refs/heads/b0:refs/tags/x)
 	FailAt   int     `json:"fail_at,omitempty"`   // C09: a first attempt whose FailAt-th receiver-side store write fails, then the judged attempt
+	Shadow   bool    `json:"shadow,omitempty"`   // merge/pull: a second local branch a/<name> exists whose name ends with the merged branch's name
 	TagRel   string  `json:"tag_rel,omitempty"`   // relation forced on the tag: clobber = the receiver's tag sits on an ancestor of the sender's
 	FailFrom bool    `json:"fail_from,omitempty"` // every write from FailAt on fails (disk full) instead of one
 }
@@ -287,6 +288,14 @@ func buildNet(c *fw.Case, env *fw.Env, p *netParams, rng *rand.Rand) (*netWorld,
 		} else {
 			ref.SaveRef(lh.RS, "heads/b0", h.sums[pl.Remote], "setup", "s@x", "setup", "b0", nil)
 		}
+	}
+	if p.Shadow && (p.Op == "merge" || p.Op == "pull") && len(w.plans) > 0 {
+		// a branch whose name merely ends with the operated branch's name, somewhere else in the history
+		si := rng.Intn(p.N)
+		if err := h.copyCommitClosure(w.all, lh.DB, si); err != nil {
+			return nil, err
+		}
+		ref.SaveRef(lh.RS, "heads/a/"+w.plans[0].Name, h.sums[si], "setup", "s@x", "setup", "shadow", nil)
 	}
 	w.srv = refserver.New(w.remoteDB, w.remoteRS, p.MaxPack)
 	w.srv.OneBytePerFlush = p.Slow
